@@ -266,6 +266,9 @@ func (maps *trackedMaps) processUnfiltered(ctx context.Context, ef *Filter, filt
 						if f.Kind() == reflect.Ptr {
 							f = f.Elem()
 						}
+						if !f.IsValid() {
+							continue // a nil element holds nothing to filter
+						}
 						if f.Type() == reflect.TypeOf(structpb.Struct{}) {
 							f = f.FieldByName("Fields")
 						}
